@@ -12,6 +12,7 @@ import Driver.Fault
 import Driver.Cfg
 import Driver.Keys
 import Driver.Load
+import Driver.Ingest
 /-! Line-protocol driver: one operation per input line, one canonical result per output line. -/
 open Drv
 
@@ -157,6 +158,7 @@ def step (st : DState2) (line : String) : DState2 × String :=
   | "lic" :: args => (st, opKeys "lic" args)
   | "loss" :: args => (st, opLoss args)
   | "stat" :: args => (st, opStat st.core args)
+  | "sess" :: args => (st, opSess st.core args)
   | _ => (st, "bad-op")
 
 partial def loop (h : IO.FS.Stream) (out : IO.FS.Stream) (st : DState2) : IO Unit := do
